@@ -133,19 +133,62 @@ def run_per_rule(case, ctx, tier="quick"):
                         lists.append([W(w) for w in brute.objects_by_param(child, m).get(k, [])])
                 import itertools
 
-                size = 1
-                for l in lists:
-                    size *= len(l)
-                if not ctx.check(hits == size, "composition-weight", f"size {n} {params}: {hits} of {total} random values lead to composition {comp}, which accounts for {size} objects, in\n{rule}\ncase {case}"):
-                    return
+                # the parent objects this composition accounts for: every tuple of child
+                # objects gives one or (strategies with a multi-valued backward map) several
+                # parent objects; they are checked against the true object set just below
+                size = 0
                 for objs_t in itertools.product(*lists):
                     for o in rule.backward_map(tuple(objs_t)):
+                        size += 1
                         ctx.check(str(o) in objs, "composition-objects", f"composition {comp} produces {o!r}, not an object of the parent with {params}")
                         ctx.check(str(o) not in covered, "composition-overlap", f"object {o!r} is reachable through two compositions")
                         covered.add(str(o))
+                if not ctx.check(hits == size, "composition-weight", f"size {n} {params}: {hits} of {total} random values lead to composition {comp}, which accounts for {size} objects, in\n{rule}\ncase {case}"):
+                    return
             ctx.check(len(covered) == total, "composition-cover", f"size {n} {params}: compositions reach {len(covered)} of {total} objects in\n{rule}")
             if total >= 3 and len(comps) >= 2:
                 interesting = True
+            # end to end through the rule (children sampled uniformly from the true object
+            # lists): the exact distribution of Rule.random_sample_object_of_size
+            if total <= 40:
+                from fractions import Fraction
+
+                from vf.oracles import enumrng
+
+                def real_sampler(c):
+                    def samp(n, **ps):
+                        k = tuple(ps[name] for name in c.extra_parameters)
+                        pool = brute.objects_by_param(c, n).get(k, [])
+                        return W(_random.choice(pool))
+
+                    return samp
+
+                saved_attrs = (getattr(rule, "subrecs", None), getattr(rule, "subsamplers", None), getattr(rule, "subterms", None))
+                rule.subrecs = subrecs
+                rule.subsamplers = tuple(real_sampler(c) for c in children)
+                ruleforms.bind_brute(rule)
+                try:
+                    dist, _ = enumrng.exact_distribution(lambda: str(rule.random_sample_object_of_size(n, **params)), max_leaves=4000)
+                except enumrng.TooManyLeaves:
+                    dist = None
+                    ctx.label("rule-distribution-too-large")
+                except NotImplementedError:
+                    dist = None
+                except Exception as e:
+                    dist = None
+                    ctx.fail("rule-sample", f"random_sample_object_of_size({n}, {params}) raised {describe_exc(e)} in\n{rule}", f"rule-sample/raises/{type(e).__name__}")
+                finally:
+                    rule.subrecs, rule.subsamplers, rule.subterms = saved_attrs
+                if dist is not None:
+                    bad = {o: str(pr) for o, pr in dist.items() if pr != Fraction(1, total)}
+                    missing = [o for o in objs if o not in dist]
+                    ctx.check(
+                        not bad and not missing,
+                        "rule-distribution",
+                        f"size {n} {params}: random_sample_object_of_size is not uniform over the {total} objects: wrong {dict(list(bad.items())[:4])}, never drawn {missing[:4]}, in\n{rule}",
+                    )
+                    if any(len(list(rule.backward_map(rule.forward_map(W(o))))) > 1 for o in objs[:3]):
+                        ctx.label("multi-valued-backward-map")
     ctx.nontrivial = interesting
 
 
